@@ -55,11 +55,11 @@ def param2json_schema_property(param, required):
             ), "Only basic Literal support is implemented, not {}".format(
                 parsed_typ.value.id
             )
-            enum = sorted(
-                map(
-                    cdd.shared.ast_utils.get_value,
-                    cdd.shared.ast_utils.get_value(parsed_typ.slice).elts,
-                )
+            literal_slice = cdd.shared.ast_utils.get_value(parsed_typ.slice)
+            enum = (
+                sorted(map(cdd.shared.ast_utils.get_value, literal_slice.elts))
+                if hasattr(literal_slice, "elts")
+                else [literal_slice]  # single-member Literal
             )
             _param.update(
                 {
